@@ -45,7 +45,7 @@ def cases(tier, seed):
             nc = int(rng.integers(1, 4))
             nt = int(rng.integers(2, 41))
             yield {"t": kind, "ni": ni, "nc": nc, "nt": nt, "unequal": bool(rng.random() < 0.5), "cells": "SA"[int(rng.integers(0, 2))],
-                   "values": ["id", "random", "int"][int(rng.integers(0, 3))], "p": int(rng.integers(0, 10 ** 6)), "dseed": int(rng.integers(0, 2 ** 31))}
+                   "values": ["id", "random", "int", "int16"][int(rng.integers(0, 4))], "p": int(rng.integers(0, 10 ** 6)), "dseed": int(rng.integers(0, 2 ** 31))}
 
 
 # ---------------------------------------------------------------------------------
@@ -64,11 +64,17 @@ def _panel(case, allow_unequal=True, force_nc=None, min_len=2):
                 row.append(np.array([1e6 * (i + 1) + 1e3 * (j + 1) + t for t in range(lens[i])], dtype=float))
             elif case["values"] == "int":
                 row.append(rng.integers(-60, 60, size=lens[i]).astype(float))      # integer-typed cells below; the documented functions are real-valued
+            elif case["values"] == "int16":
+                row.append(rng.integers(-9000, 9000, size=lens[i]).astype(float))  # narrow integer cells with values in the thousands
             else:
                 row.append(np.round(rng.normal(0, 10, size=lens[i]), 5))
         data.append(row)
     cont = (lambda v: pd.Series(v)) if case.get("cells", "S") == "S" else (lambda v: np.array(v))
-    typed = (lambda a: a.astype(np.int64)) if case["values"] == "int" else (lambda a: a.copy())
+    if case.get("cells", "S") == "S" and case["dseed"] % 4 in (2, 3):
+        # Series cells carrying their own (1-based / offset) time index: the documented functions go by position
+        st_ = 1 if case["dseed"] % 4 == 2 else 100
+        cont = lambda v: pd.Series(v, index=pd.RangeIndex(st_, st_ + len(v)))  # noqa
+    typed = (lambda a: a.astype(np.int64)) if case["values"] == "int" else ((lambda a: a.astype(np.int16)) if case["values"] == "int16" else (lambda a: a.copy()))
     df = pd.DataFrame({"dim_%d" % j: [cont(typed(data[i][j])) for i in range(ni)] for j in range(nc)})
     return data, df, lens
 
